@@ -608,6 +608,8 @@ func rulePanicInventory(c *Ctx, rule string, roots []*ssa.Function, pkgs []strin
 				if f, ok := sp[name]; ok {
 					if okd, why := f(); okd {
 						ob.OKnt(why)
+					} else if strings.HasPrefix(why, "UNDECIDED: ") {
+						ob.Und(strings.TrimPrefix(why, "UNDECIDED: "))
 					} else {
 						ob.Bad(why)
 					}
@@ -636,6 +638,14 @@ func rulePanicInventory(c *Ctx, rule string, roots []*ssa.Function, pkgs []strin
 					sort.Strings(missing)
 					ob.Bad(fmt.Sprintf("panic %s is reached by values of type %s, which the type switch does not handle", msg, strings.Join(missing, ", ")))
 				}
+				return
+			}
+			if why := c.missOfCompleteMap(fn, p); why != "" {
+				ob.OKnt(why)
+				return
+			}
+			if why := c.outsideEnumRange(fn, p); why != "" {
+				ob.OKnt(why)
 				return
 			}
 			ob.Bad("explicit panic " + msg + " reachable from " + fnName(roots[0]) + ": not the default of an exhaustive switch, not in the trusted table")
@@ -769,6 +779,44 @@ func ruleNilSuccess(c *Ctx, rule string, exceptions map[string]string) {
 			}
 		})
 	}
+	// a function that hands the unchecked node of a nil-success function on as its own first result is a nil-success function too:
+	// its callers carry the obligation
+	forwarded := map[*ssa.Return]bool{}
+	for changed := true; changed; {
+		changed = false
+		for _, fn := range c.SrcFuncs("ast") {
+			res := fn.Signature.Results()
+			if res.Len() < 2 {
+				continue
+			}
+			if _, isPtr := res.At(0).Type().Underlying().(*types.Pointer); !isPtr {
+				continue
+			}
+			instrsOf(fn, func(in ssa.Instruction) {
+				ret, ok := in.(*ssa.Return)
+				if !ok || len(ret.Results) < 2 || forwarded[ret] {
+					return
+				}
+				ex, ok := ret.Results[0].(*ssa.Extract)
+				if !ok || ex.Index != 0 {
+					return
+				}
+				call, ok := ex.Tuple.(*ssa.Call)
+				if !ok || ns[call.Call.StaticCallee()] == nil || ns[call.Call.StaticCallee()].iface {
+					return
+				}
+				if nilChecked(ex, ret) {
+					return
+				}
+				forwarded[ret] = true
+				if ns[fn] == nil {
+					ns[fn] = &nsInfo{fn: fn}
+				}
+				ns[fn].returns = append(ns[fn].returns, ret)
+				changed = true
+			})
+		}
+	}
 	r.Floor(rule, "parse functions returning (node, ..., error)", nfuncs, 25)
 	var fns []*ssa.Function
 	for f := range ns {
@@ -820,6 +868,9 @@ func ruleNilSuccess(c *Ctx, rule string, exceptions map[string]string) {
 						case *ssa.Phi:
 							bad = append(bad, "merged into "+u.Name()+" without a test")
 						default:
+							if ret, isRet := use.(*ssa.Return); isRet && forwarded[ret] {
+								continue // handed on as this function's own nil-success result: its callers are held to the rule
+							}
 							if !nilChecked(ex, use) {
 								bad = append(bad, fmt.Sprintf("%s at %s", describeUse(use), c.pos(use.Pos())))
 							}
@@ -828,6 +879,8 @@ func ruleNilSuccess(c *Ctx, rule string, exceptions map[string]string) {
 				}
 				if len(bad) == 0 {
 					ob.OKnt("every use of the node is dominated by a test against nil")
+				} else if nilDependsOnObjectState(f, info.returns) {
+					ob.Und(fmt.Sprintf("%s answers nil depending on the state of the object it is a method of (a cursor); whether its callers have excluded that state is not followed: %s", f.Name(), strings.Join(bad, "; ")))
 				} else {
 					ob.Bad(fmt.Sprintf("%s can return (nil, index, nil) at %s, but here the result is used without a nil test: %s — a typed nil inside an interface passes every != nil test and is dereferenced by the generator",
 						f.Name(), strings.Join(where, ", "), strings.Join(bad, "; ")))
@@ -1150,4 +1203,271 @@ func ruleBoundedLoops(c *Ctx, rule string, pkgs []string) {
 		}
 	}
 	r.Floor(rule, "loops in the generator and checker", n, 10)
+}
+
+// missOfCompleteMap: the panic is control-dependent on the miss of a comma-ok lookup in a package-level map that is initialised with
+// a key for every constant of its (enum) key type - the table form of an exhaustive switch. Returns the reason, or "".
+func (c *Ctx) missOfCompleteMap(fn *ssa.Function, p *ssa.Panic) string {
+	// resolve a condition value to (Lookup, polarity): through negation, through a captured variable, through a local
+	var resolve func(f *ssa.Function, v ssa.Value, depth int) (*ssa.Lookup, bool, bool)
+	resolve = func(f *ssa.Function, v ssa.Value, depth int) (*ssa.Lookup, bool, bool) {
+		if depth > 6 {
+			return nil, false, false
+		}
+		switch x := v.(type) {
+		case *ssa.UnOp:
+			if x.Op == token.NOT {
+				lk, pol, ok := resolve(f, x.X, depth+1)
+				return lk, !pol, ok
+			}
+			if x.Op == token.MUL {
+				var cell ssa.Value = x.X
+				owner := f
+				if fv, ok := cell.(*ssa.FreeVar); ok && f.Parent() != nil {
+					// the variable the enclosing function handed to this closure
+					idx := -1
+					for i, q := range f.FreeVars {
+						if q == fv {
+							idx = i
+						}
+					}
+					cell = nil
+					instrsOf(f.Parent(), func(in ssa.Instruction) {
+						if mc, ok := in.(*ssa.MakeClosure); ok && mc.Fn == ssa.Value(f) && idx >= 0 && idx < len(mc.Bindings) {
+							cell = mc.Bindings[idx]
+						}
+					})
+					owner = f.Parent()
+				}
+				if a, ok := cell.(*ssa.Alloc); ok {
+					var val ssa.Value
+					nst := 0
+					for _, ref := range *a.Referrers() {
+						if st, ok := ref.(*ssa.Store); ok && st.Addr == ssa.Value(a) {
+							val = st.Val
+							nst++
+						}
+					}
+					if nst == 1 {
+						return resolve(owner, val, depth+1)
+					}
+				}
+			}
+		case *ssa.Extract:
+			if lk, ok := x.Tuple.(*ssa.Lookup); ok && lk.CommaOk && x.Index == 1 {
+				return lk, true, true
+			}
+		}
+		return nil, false, false
+	}
+	for _, l := range domConds(fn, p.Block()) {
+		lk, pol, ok := resolve(fn, l.Cond, 0)
+		if !ok || pol == l.Pol {
+			continue // not a lookup, or the panic sits on the hit side
+		}
+		ld, ok := lk.X.(*ssa.UnOp)
+		if !ok || ld.Op != token.MUL {
+			continue
+		}
+		g, ok := ld.X.(*ssa.Global)
+		if !ok || g.Pkg == nil || !c.isRepoPkg(g.Pkg.Pkg) {
+			continue
+		}
+		mt, ok := deref(g.Type()).Underlying().(*types.Map)
+		if !ok {
+			continue
+		}
+		kt, ok := mt.Key().(*types.Named)
+		if !ok || kt.Obj().Pkg() == nil {
+			continue
+		}
+		// keys written by the package initialiser
+		keys := map[string]bool{}
+		complete := true
+		init := g.Pkg.Func("init")
+		if init == nil {
+			continue
+		}
+		var mapVal ssa.Value
+		instrsOf(init, func(in ssa.Instruction) {
+			if st, ok := in.(*ssa.Store); ok && st.Addr == ssa.Value(g) {
+				mapVal = st.Val
+			}
+		})
+		if mapVal == nil {
+			continue
+		}
+		instrsOf(init, func(in ssa.Instruction) {
+			if mu, ok := in.(*ssa.MapUpdate); ok && mu.Map == mapVal {
+				if k, ok := mu.Key.(*ssa.Const); ok && k.Value != nil {
+					keys[k.Value.ExactString()] = true
+				} else {
+					complete = false
+				}
+			}
+		})
+		// every constant of the key type, and nobody else writes the map
+		var missing []string
+		scope := kt.Obj().Pkg().Scope()
+		ncst := 0
+		for _, name := range scope.Names() {
+			if cst, ok := scope.Lookup(name).(*types.Const); ok && types.Identical(cst.Type(), kt) {
+				ncst++
+				if !keys[cst.Val().ExactString()] {
+					missing = append(missing, cst.Name())
+				}
+			}
+		}
+		written := false
+		for f := range c.allFns {
+			if !c.isRepoFn(f) || f == init {
+				continue
+			}
+			instrsOf(f, func(in ssa.Instruction) {
+				switch x := in.(type) {
+				case *ssa.MapUpdate:
+					if gg, ok := traceAddr(x.Map).Root.(*ssa.Global); ok && gg == g {
+						written = true
+					}
+				case *ssa.Store:
+					if x.Addr == ssa.Value(g) {
+						written = true
+					}
+				}
+			})
+		}
+		if complete && ncst > 0 && len(missing) == 0 && !written {
+			return fmt.Sprintf("reached only when a lookup in %s misses; the table is initialised with a key for each of the %d constants of %s and is never written afterwards: unreachable", g.Name(), ncst, kt.Obj().Name())
+		}
+	}
+	return ""
+}
+
+// nilDependsOnObjectState: every nil-success return of the method f is control-dependent on a condition that reads the receiver's
+// fields (directly or through another method of the receiver).
+func nilDependsOnObjectState(f *ssa.Function, rets []*ssa.Return) bool {
+	if f.Signature.Recv() == nil || len(f.Params) == 0 || len(rets) == 0 {
+		return false
+	}
+	recv := ssa.Value(f.Params[0])
+	var reads func(v ssa.Value, d int) bool
+	reads = func(v ssa.Value, d int) bool {
+		if d > 4 {
+			return false
+		}
+		switch x := v.(type) {
+		case *ssa.Call:
+			if len(x.Call.Args) > 0 && x.Call.Args[0] == recv {
+				return true
+			}
+		case *ssa.UnOp:
+			if fa, ok := x.X.(*ssa.FieldAddr); ok && fa.X == recv {
+				return true
+			}
+			return reads(x.X, d+1)
+		case *ssa.BinOp:
+			return reads(x.X, d+1) || reads(x.Y, d+1)
+		case *ssa.Index:
+			return reads(x.X, d+1) || reads(x.Index, d+1)
+		case *ssa.Lookup:
+			return reads(x.X, d+1) || reads(x.Index, d+1)
+		case *ssa.Convert:
+			return reads(x.X, d+1)
+		}
+		return false
+	}
+	for _, ret := range rets {
+		dep := false
+		for _, l := range domConds(f, ret.Block()) {
+			if reads(l.Cond, 0) {
+				dep = true
+			}
+		}
+		if !dep {
+			return false
+		}
+	}
+	return true
+}
+
+// outsideEnumRange: the panic is reached only when a value of an enum type lies outside [0, N) although every constant of the type
+// lies inside (the bounds check in front of a table indexed by the enum).
+func (c *Ctx) outsideEnumRange(fn *ssa.Function, p *ssa.Panic) string {
+	cds := NewPostDom(fn).ControlDeps()[p.Block()]
+	if len(cds) == 0 {
+		return ""
+	}
+	var enum *types.Named
+	lo, hi := int64(0), int64(-1)
+	for _, ce := range cds {
+		iff, ok := ce.Branch.Instrs[len(ce.Branch.Instrs)-1].(*ssa.If)
+		if !ok {
+			return ""
+		}
+		b, ok := iff.Cond.(*ssa.BinOp)
+		if !ok {
+			return ""
+		}
+		x := b.X
+		if cv, ok := x.(*ssa.Convert); ok {
+			x = cv.X
+		}
+		if cv, ok := x.(*ssa.ChangeType); ok {
+			x = cv.X
+		}
+		nt, ok := x.Type().(*types.Named)
+		if !ok {
+			return ""
+		}
+		if _, isInt := nt.Underlying().(*types.Basic); !isInt {
+			return ""
+		}
+		if enum != nil && enum != nt {
+			return ""
+		}
+		enum = nt
+		k, isK := constInt(b.Y)
+		if !isK {
+			// len of a fixed-size array
+			if call, ok := b.Y.(*ssa.Call); ok {
+				if bi, ok := call.Call.Value.(*ssa.Builtin); ok && bi.Name() == "len" && len(call.Call.Args) == 1 {
+					if at, ok := deref(call.Call.Args[0].Type()).Underlying().(*types.Array); ok {
+						k, isK = at.Len(), true
+					}
+				}
+			}
+		}
+		if !isK {
+			return ""
+		}
+		onTrue := ce.Succ == 0
+		switch {
+		case b.Op == token.LSS && onTrue: // x < k -> panic: values must be >= k
+			lo = k
+		case b.Op == token.GEQ && onTrue: // x >= k -> panic: values must be < k
+			hi = k
+		case b.Op == token.GEQ && !onTrue, b.Op == token.LSS && !onTrue:
+			return ""
+		default:
+			return ""
+		}
+	}
+	if enum == nil || hi < 0 || enum.Obj().Pkg() == nil {
+		return ""
+	}
+	scope := enum.Obj().Pkg().Scope()
+	n := 0
+	for _, name := range scope.Names() {
+		if cst, ok := scope.Lookup(name).(*types.Const); ok && types.Identical(cst.Type(), enum) {
+			v, exact := constant.Int64Val(cst.Val())
+			if !exact || v < lo || v >= hi {
+				return ""
+			}
+			n++
+		}
+	}
+	if n == 0 {
+		return ""
+	}
+	return fmt.Sprintf("reached only when a %s lies outside [%d, %d); all %d constants of the type lie inside (bounds check of a table indexed by the enum): unreachable", enum.Obj().Name(), lo, hi, n)
 }
